@@ -164,6 +164,42 @@ def run(case):
                 os.remove(fn)
                 if fmt == "xdmf" and os.path.exists(fn.replace(".xdmf", ".h5")):
                     os.remove(fn.replace(".xdmf", ".h5"))
+        # the default export (combined=True: one block per cell type) for containers of THREE blocks in every order, two of them
+        # of the same cell type (adjacent or separated by the third): per cell type the exported object, and a file written from
+        # it and read back, hold exactly the cells that were given (compared by corner coordinates)
+        def cellset(points, cells):
+            return sorted(tuple(np.round(points[cl], 12).ravel().tolist()) for cl in cells)
+
+        for order in itertools.permutations(("a", "b", "t")):
+            blocks = [dict(a=a, b=b, t=t)[k_] for k_ in order]
+            for merge in (False, True):
+                mc = fem.MeshContainer(blocks, merge=merge)
+                sub = f"combined/order={''.join(order)}/merge={merge}"
+                want = {}
+                for m_ in mc.meshes:
+                    want.setdefault(m_.cell_type, []).extend(cellset(mc.points, m_.cells))
+                mio = mc.as_meshio()
+                c.trans += 1
+                got = {}
+                for cb in mio.cells:
+                    got.setdefault(cb.type, []).extend(cellset(np.asarray(mio.points)[:, :2], cb.data))
+                if {k_: sorted(v_) for k_, v_ in got.items()} != {k_: sorted(v_) for k_, v_ in want.items()}:
+                    c.bad(sub + "/object", "cells per cell type in the exported (combined) meshio object", {k_: len(v_) for k_, v_ in got.items()}, {k_: len(v_) for k_, v_ in want.items()})
+                    continue
+                fn = f"c_comb_{''.join(order)}_{int(merge)}.vtu"
+                import meshio
+
+                meshio.Mesh(np.pad(np.asarray(mio.points)[:, :2], ((0, 0), (0, 1))), mio.cells).write(fn)  # (vtu wants 3D points)
+                r = fem.mesh.read(fn, dim=2)
+                c.trans += 1
+                back = {}
+                for m_ in r.meshes:
+                    back.setdefault(m_.cell_type, []).extend(cellset(r.points, m_.cells))
+                if {k_: sorted(v_) for k_, v_ in back.items()} != {k_: sorted(v_) for k_, v_ in want.items()}:
+                    c.bad(sub + "/file", "cells per cell type in the file written from the combined export", {k_: len(v_) for k_, v_ in back.items()}, {k_: len(v_) for k_, v_ in want.items()})
+                os.remove(fn)
+                c.nontrivial.append(sub)
+                c.states += 1
         return c.result(dict(case=case["key"]))
     if kind == "job":
         from meshio.xdmf import TimeSeriesReader
